@@ -15,7 +15,7 @@ ASSUMPTIONS = [
     "'answers every query like an object built from that string' is established as equality of the complete object state with an object constructed from the parsed string",
 ]
 OUTSIDE = ["more / longer lines than the bound", "control characters and non-ASCII bytes inside lines", "I/O failures"]
-SHAPES = {"quick": [(1, 1), (1, 2), (1, 3), (2, 1), (2, 2)], "thorough": [(1, 1), (1, 2), (1, 3), (1, 4), (2, 1), (2, 2), (2, 3), (3, 1), (3, 2)]}
+SHAPES = {"quick": [(1, 1), (1, 2), (1, 3), (2, 1), (2, 2), (3, 1)], "thorough": [(1, 1), (1, 2), (1, 3), (1, 4), (2, 1), (2, 2), (2, 3), (3, 1), (3, 2)]}
 ITEM_TIMEOUT = {"quick": 900, "thorough": 3400}
 ALPHA = [chr(i) for i in range(0x20, 0x7F)]
 AIDX = {c: i for i, c in enumerate(ALPHA)}
@@ -144,6 +144,10 @@ def run_item(item):
 
     def thunk():
         parsed = I.call(I.call(SequenceFileParser, [], {}).parseSeqFile, ["<symbolic file>"], {})
+        return parsed, None
+
+    def thunk_obj():
+        parsed = I.call(I.call(SequenceFileParser, [], {}).parseSeqFile, ["<symbolic file>"], {})
         sp = I.call(SequenceParameters, [], {"sequenceFile": "<symbolic file>"})
         return parsed, sp
 
@@ -164,7 +168,7 @@ def run_item(item):
         claim = z3.And(nexp == n, *[nth_code(letters, t) == codes[t] for t in range(n)])
         ob.prove(z3.Or(unspecified, claim), "parse result == the concatenated residue letters", cex)
         # the object built from the file has the state of an object built from the parsed string
-        if n > 0:
+        if n > 0 and sp is not None:
             sp2 = I.call(SequenceParameters, [parsed], {})
             for attr in STATE:
                 t = state_eq(I, getattr(sp.SeqObj, attr, "<missing>"), getattr(sp2.SeqObj, attr, "<missing>"))
@@ -180,7 +184,8 @@ def run_item(item):
                 res["inconclusive"].append("TRANSLATOR-VALIDATION FAILED on %r: %r vs %r" % (c["text"], concrete(m, parsed), want))
         except Exception as ex:
             res["inconclusive"].append("TRANSLATOR-VALIDATION: native parse raised %s on a returning path %r" % (type(ex).__name__, c["text"]))
-    explore(I, res, thunk, on_return, cex, label=item["name"], on_raise=on_raise)
+    explore(I, res, thunk, on_return, cex, label=item["name"] + " parse", on_raise=on_raise)
+    explore(I, res, thunk_obj, on_return, cex, label=item["name"] + " object", on_raise=on_raise)
     return finish(I, res)
 
 
@@ -242,12 +247,17 @@ def replay(cex):
     try:
         os.write(fd, text.encode("ascii"))
         os.close(fd)
+        from localcider.backend.seqfileparser import SequenceFileParser
         try:
-            from localcider.backend.seqfileparser import SequenceFileParser
             got = SequenceFileParser().parseSeqFile(path, silent=True)
+        except Exception as ex:
+            return status == "ok", "file %r rejected by the parser with %s; reference: %s %r" % (text, type(ex).__name__, status, val)
+        if status == "reject":
+            return True, "file %r parsed to %r; reference rejects it (%s)" % (text, got, val)
+        try:
             sp = SequenceParameters(sequenceFile=path)
         except Exception as ex:
-            return status == "ok", "file %r rejected with %s; reference: %s %r" % (text, type(ex).__name__, status, val)
+            return True, "file %r parses to %r but SequenceParameters(sequenceFile=...) raised %s" % (text, got, type(ex).__name__)
     finally:
         os.unlink(path)
     if status == "reject":
